@@ -401,15 +401,17 @@ def encode(lib, ch):
 
 def _enc_xy(pts, ch, splittable):
     flat = [v for p in pts for v in p]
+    cuts = list(range(8190, len(pts), 8190))          # mandatory: at most 8191 points fit one record
     if splittable and len(pts) >= 2 and ch.flip(0.25):
-        k = ch.r.randrange(1, len(pts))
-        return rec_i32(XY, *flat[:2 * k]) + rec_i32(XY, *flat[2 * k:])
-    if len(pts) > 8190:
-        out = b''
-        for i in range(0, len(pts), 8190):
-            out += rec_i32(XY, *flat[2 * i:2 * (i + 8190)])
-        return out
-    return rec_i32(XY, *flat)
+        cuts.append(ch.r.randrange(1, len(pts)))
+    cuts = sorted(set(cuts))
+    out = b''
+    prev = 0
+    for k in cuts + [len(pts)]:
+        if k > prev:
+            out += rec_i32(XY, *flat[2 * prev:2 * k])
+        prev = k
+    return out
 
 
 def _enc_strans(el, ch):
